@@ -4,9 +4,12 @@ From Coq Require Import Bool List NArith ZArith Lia.
 From M Require MatchLang.
 From M Require MatchAbs.
 From M Require MatchConc.
+From M Require MatchNumsSpec.
+From M Require MatchNums.
 From M Require MatchAbs.
 From M Require MatchConc.
 From M Require MatchModel.
+From M Require MatchNums.
 Import ListNotations.
 
 Module T_match_language. Import MatchLang. Local Open Scope bool_scope. Local Open Scope Z_scope.
@@ -34,4 +37,77 @@ Theorem C03_match_top :
 Proof. exact (@MatchConc.match_top). Qed.
 End T_match_top.
 Definition C03_match_top := @T_match_top.C03_match_top.
+
+Module T_seg_ok_spec. Import MatchNumsSpec. Local Open Scope bool_scope. Local Open Scope Z_scope.
+Import MatchModel MatchConc MatchNums. Local Open Scope bool_scope. Local Open Scope Z_scope.
+Local Open Scope Z_scope.
+Theorem C03_seg_ok_spec :
+  forall it s,
+  okname (nm it) ->
+  seg_ok it s = form_ok it (zlen (nm it)) s || form_ok it (shortlen it) s.
+Proof. exact (@MatchNumsSpec.seg_ok_spec). Qed.
+End T_seg_ok_spec.
+Definition C03_seg_ok_spec := @T_seg_ok_spec.C03_seg_ok_spec.
+
+Module T_sval_spec. Import MatchNumsSpec. Local Open Scope bool_scope. Local Open Scope Z_scope.
+Import MatchModel MatchConc MatchNums. Local Open Scope bool_scope. Local Open Scope Z_scope.
+Local Open Scope Z_scope.
+Theorem C03_sval_spec :
+  forall it s,
+  okname (nm it) -> num it = true -> okseg2 s ->
+  sval it s = if fo it (zlen (nm it)) s then suffix_at (zlen (nm it)) s
+              else if fo it (shortlen it) s then suffix_at (shortlen it) s else None.
+Proof. exact (@MatchNumsSpec.sval_spec). Qed.
+End T_sval_spec.
+Definition C03_sval_spec := @T_sval_spec.C03_sval_spec.
+
+Module T_match_top_nums. Import MatchNums. Local Open Scope bool_scope. Local Open Scope Z_scope.
+Import MatchModel MatchConc. Local Open Scope bool_scope. Local Open Scope Z_scope.
+Local Open Scope Z_scope.
+Theorem C03_match_top_nums :
+  forall it its q lead seg ss hq dflt nums,
+  okname (nm it) -> wf its -> okseg2 seg -> Forall okseg2 ss -> seg <> [] ->
+  (q = false -> hq = false) ->
+  spec_ok (matchCommand (render it its q) (hdr lead seg ss hq) nums dflt)
+          ((negb q || hq) && greedy (it :: its) (seg :: ss))
+          (greedyN (it :: its) (seg :: ss) nums 0 dflt).
+Proof. exact (@MatchNums.match_top_nums). Qed.
+End T_match_top_nums.
+Definition C03_match_top_nums := @T_match_top_nums.C03_match_top_nums.
+
+Module T_accepts_reads. Import MatchNumsSpec. Local Open Scope bool_scope. Local Open Scope Z_scope.
+Import MatchModel MatchConc MatchNums. Local Open Scope bool_scope. Local Open Scope Z_scope.
+Local Open Scope Z_scope.
+Theorem C03_accepts_reads :
+  forall its,
+  forall ss, MatchAbs.accepts bytes (map MatchLang.abs_item its) ss = true <-> exists ch, reads its ss ch = true.
+Proof. exact (@MatchNumsSpec.accepts_reads). Qed.
+End T_accepts_reads.
+Definition C03_accepts_reads := @T_accepts_reads.C03_accepts_reads.
+
+Module T_greedyN_reads. Import MatchNumsSpec. Local Open Scope bool_scope. Local Open Scope Z_scope.
+Import MatchModel MatchConc MatchNums. Local Open Scope bool_scope. Local Open Scope Z_scope.
+Local Open Scope Z_scope.
+Theorem C03_greedyN_reads :
+  forall its,
+  forall ss ch nums nidx dflt,
+  MatchAbs.unamb bytes (map MatchLang.abs_item its) -> reads its ss ch = true ->
+  greedyN its ss nums nidx dflt = store (suffixes its ss ch) nums nidx dflt.
+Proof. exact (@MatchNumsSpec.greedyN_reads). Qed.
+End T_greedyN_reads.
+Definition C03_greedyN_reads := @T_greedyN_reads.C03_greedyN_reads.
+
+Module T_match_numbers. Import MatchNumsSpec. Local Open Scope bool_scope. Local Open Scope Z_scope.
+Import MatchModel MatchConc MatchNums. Local Open Scope bool_scope. Local Open Scope Z_scope.
+Local Open Scope Z_scope.
+Theorem C03_match_numbers :
+  forall it its q lead seg ss hq dflt a ch,
+  okname (nm it) -> wf its -> okseg2 seg -> Forall okseg2 ss -> seg <> [] ->
+  (q = false -> hq = false) -> MatchLang.unambiguous it its ->
+  (negb q || hq) = true -> reads (it :: its) (seg :: ss) ch = true ->
+  matchCommand (render it its q) (hdr lead seg ss hq) (Some a) dflt =
+  Res true (store (suffixes (it :: its) (seg :: ss) ch) (Some a) 0 dflt).
+Proof. exact (@MatchNumsSpec.match_numbers). Qed.
+End T_match_numbers.
+Definition C03_match_numbers := @T_match_numbers.C03_match_numbers.
 
